@@ -6,6 +6,7 @@ Imports model files only (no Mathlib), so it links as a native executable.
 import TgModel.Grammar
 import TgModel.LineIndex
 import TgModel.Include
+import TgModel.SymbolMap
 
 open Tg
 
@@ -108,6 +109,30 @@ def cmdGraph (rest : String) : String :=
       s!"files={files} order={order.reverse} diags={diags} links={" ".intercalate links}"
   | _ => "bad-args"
 
+/-- `symmap <ops> <queries>`: ops `;`-separated `D,<hexname>,<file>,<s>,<e>` | `A,…` | `R,<sym>,<file>,<s>,<e>`;
+queries `,`-separated `<file>:<pos>`. One answer per query: `G<loc>|G- R[<locs>]|R-`. -/
+def cmdSymmap (rest : String) : String :=
+  match rest.splitOn " " with
+  | [opsS, qsS] =>
+    let ops : List SymbolMap.Op := (opsS.splitOn ";").filterMap fun o =>
+      match o.splitOn "," with
+      | ["D", nm, f, a, b] => some (.define ((payload nm).getD []) ⟨f.toNat!, a.toNat!, b.toNat!⟩)
+      | ["A", nm, f, a, b] => some (.defineAnon ((payload nm).getD []) ⟨f.toNat!, a.toNat!, b.toNat!⟩)
+      | ["R", sy, f, a, b] => some (.reference sy.toNat! ⟨f.toNat!, a.toNat!, b.toNat!⟩)
+      | _ => none
+    let st := SymbolMap.run ops
+    let locS := fun (l : SymbolMap.Loc) => s!"{l.file}:{l.start}:{l.stop}"
+    let answers := (qsS.splitOn ",").map fun q =>
+      match q.splitOn ":" with
+      | [f, p] =>
+        let g := match SymbolMap.gotoDef st f.toNat! p.toNat! with | some l => "G" ++ locS l | none => "G-"
+        let r := match SymbolMap.references st f.toNat! p.toNat! with
+          | some ls => "R[" ++ ",".intercalate (ls.map locS) ++ "]" | none => "R-"
+        g ++ "|" ++ r
+      | _ => "bad-query"
+    " ".intercalate answers
+  | _ => "bad-args"
+
 def dispatch (cmd rest : String) : String :=
   match cmd with
   | "lex" => match payload rest with | some s => cmdLex s | none => "bad-utf8"
@@ -117,6 +142,7 @@ def dispatch (cmd rest : String) : String :=
   | "steps" => match payload rest with | some s => cmdSteps s | none => "bad-utf8"
   | "li" => LineIndex.cmd rest
   | "graph" => cmdGraph rest
+  | "symmap" => cmdSymmap rest
   | _ => s!"bad-cmd {cmd}"
 
 partial def loop (h : IO.FS.Stream) (out : IO.FS.Stream) : IO Unit := do
